@@ -51,3 +51,23 @@ Theorem C04_capacity_positive : forall K n d fc, 0 < n -> 0 < d -> 0 < fc ->
   1 <= file_start (F_of K n d fc + fc) n d - file_start (F_of K n d fc) n d.
 Proof. exact capacity_positive. Qed.
 Print Assumptions C04_capacity_positive.
+
+(* names are injective: two different file times never print to the same rf@<sec>.<ms>.h5, and two
+   different directory times (before year 10000) never to the same YYYY-MM-DDTHH-MM-SS -- so file
+   and directory names are a pure, injective function of (sample index, rate, cadences) *)
+From DRF Require Import Proofs.NameProofs.
+
+Theorem C04_file_name_injective : forall F F', 0 <= F -> 0 <= F' ->
+  snprintf "tmp.rf@%lu.%03lu.h5" [F / 1000; F mod 1000] = snprintf "tmp.rf@%lu.%03lu.h5" [F' / 1000; F' mod 1000] ->
+  F = F'.
+Proof. exact file_name_injective. Qed.
+Print Assumptions C04_file_name_injective.
+
+Theorem C04_subdir_name_injective : forall S S', 0 <= S < 253402300800 -> 0 <= S' < 253402300800 ->
+  (let '(y, mo, dd, hh, mi, ss) := time_parts S in
+   snprintf "%04i-%02i-%02iT%02i-%02i-%02i" [y; mo; dd; hh; mi; ss]) =
+  (let '(y, mo, dd, hh, mi, ss) := time_parts S' in
+   snprintf "%04i-%02i-%02iT%02i-%02i-%02i" [y; mo; dd; hh; mi; ss]) ->
+  S = S'.
+Proof. exact subdir_name_injective. Qed.
+Print Assumptions C04_subdir_name_injective.
